@@ -129,7 +129,7 @@ CHECKS["C16"] = dict(level="fault_enumeration", ref="DESIGN.md 5 C16",
          "operation k; a fresh time-limited process recovers; TLC computes from the operation log what each file "
          "holds at k and demands the required outcome (usable, untouched objects and PINs intact, written object old "
          "or new) or exactly a deviation that is listed as a known finding. StoreMP.tla shows at design level that "
-         "the as-built truncate-then-write protocol violates CrashOldOrNew and an atomic variant satisfies it. Reading calls (search, attribute reads of every object incl. HMAC- and DES3-typed keys, C_GetObjectSize, signing, encryption, token info; read-write and read-only session) are recorded too: TLC demands that their operation log contains no write at all (ReadOnlyOK). Torn writes: the finished file of a newly created object is cut at every byte offset and recovered from by a fresh process; a cut inside an attribute record must leave the object absent and everything else intact.",
+         "the as-built truncate-then-write protocol violates CrashOldOrNew and an atomic variant satisfies it. Reading calls (search, attribute reads of every object incl. HMAC- and DES3-typed keys, C_GetObjectSize, signing, encryption, token info; read-write and read-only session) are recorded too: TLC demands that their operation log contains no write at all (ReadOnlyOK). Torn writes: the finished file of a newly created object (a plain one and one with every value kind of the file format) is cut at every byte offset and recovered from by a fresh process; a cut inside an attribute record must leave the object absent and everything else intact.",
     note="Trusted: TLC, harness/fsshim.c (crash = _exit before the operation: process death, buffered data lost), the "
          "recovery probe. File backend; objects below the stdio buffer size. Four known findings (in-place rewrite "
          "windows and multi-step creation) are reported as KNOWN-FINDING; anything else is a VIOLATION.")
